@@ -147,10 +147,11 @@ def run(ck):
     corr_bad, nb, dist = [], 0, {}
     for i in range(n):
         backend = ck.rng.choice(["numba", "numba", "numpy", "cuda"])
-        which = ck.rng.choice(["full", "full", "single"])
+        which = "full" if i % 7 == 2 else ck.rng.choice(["full", "full", "single"])
         with Recorder() as rec:
             res, an, info = attrs.make_result(ck.rng, which=which, backend=backend, kind=ck.rng.choice(["independent", "coupled", "walk"]),
-                                              cross=(True if i % 5 == 1 else None), layout=("Nx2" if i % 5 == 1 else None))
+                                              cross=(True if i % 5 == 1 else None), layout=("Nx2" if i % 5 == 1 else None),
+                                              scheduler=("dup:ltf" if i % 7 == 2 else None))
         key = "%s/%s/order%d/%s" % (which, backend, info["order"], "cross" if info["cross"] else "auto")
         dist[key] = dist.get(key, 0) + 1
         if backend == "cuda" and len(res._data["f"]) > 40:
